@@ -954,6 +954,9 @@ def run_real(make_steps, gss_kex):
         for st in steps:
             seq = getattr(sess.tc.packetizer, "_Packetizer__sequence_number_out")
             st["seq"] = seq
+            if callable(st.get("lazy")):
+                # parts of the step that depend on the connection's state at this moment (e.g. the latest exchange hash)
+                st.update(st.pop("lazy")(sess))
             if st.get("op") == "rekey":
                 o = sess.rekey(st["env"])
             elif st.get("op") == "server-rekey-start":
@@ -1211,3 +1214,80 @@ def legitimately_granted(st, r):
     """USERAUTH_SUCCESS is on the wire in this step AND the application's verdict in this step was AUTH_SUCCESSFUL"""
     return any(m == b"\x34" for m in sent_list(r)) and any(v == 0 and gss_evidence(st, r, n)
                                                            for n, _c, v in verdicts(st, r))
+
+
+def second_key_same_algorithm():
+    """another ECDSA nistp256 key: same algorithm name as client_keys()[1], different key"""
+    from paramiko import ECDSAKey
+
+    if "ec-b" not in _keys:
+        _keys["ec-b"] = ECDSAKey.generate(bits=256)
+    return _keys["ec-b"]
+
+
+def lazy_pk_step(gen, user, key, algo, res, bind="session_id"):
+    """a signed publickey request whose signature is made when the step is sent, over a blob whose first field is
+    the connection's session id (the FIRST exchange hash, RFC 4252 section 7) or - bind='H' - the LATEST exchange
+    hash, which differs from it after a key re-exchange"""
+    st = pk_step(gen, b"\x00" * 32, user, key, algo, True, res, sigkind="valid")
+
+    def fill(sess):
+        first = sess.session_id
+        value = first if bind == "session_id" else sess.ts.H
+        blob = session_blob(value, user, b"ssh-connection", algo.encode(), key.asbytes())
+        sig = key.sign_ssh_data(blob, algo).asbytes()
+        payload = S(user, b"ssh-connection", b"publickey") + S(True, algo.encode(), key.asbytes()) + S(sig)
+        tok = [t for t in st["tok"] if not t.startswith(("signed=", "sigok="))] + ["signed=" + hx(blob), "sigok=1"]
+        meta = dict(st["meta"])
+        same = value == first
+        meta.update(sigkind="valid" if same else "latest-exchange-hash", sig_valid=same)
+        return {"payload": payload, "tok": tok, "meta": meta}
+
+    st["lazy"] = fill
+    return st
+
+
+def source_facts():
+    """facts read off the source (AST) of paramiko/auth_handler.py:
+    blob_reads   : attributes of self.transport that _get_session_blob reads
+    request_state: attributes of self that _parse_userauth_request assigns"""
+    import ast
+    import inspect
+    import textwrap
+
+    from paramiko.auth_handler import AuthHandler
+
+    t1 = ast.parse(textwrap.dedent(inspect.getsource(AuthHandler._get_session_blob)))
+    reads = sorted({n.attr for n in ast.walk(t1) if isinstance(n, ast.Attribute) and isinstance(n.value, ast.Attribute)
+                    and n.value.attr == "transport"})
+    t2 = ast.parse(textwrap.dedent(inspect.getsource(AuthHandler._parse_userauth_request)))
+    written = set()
+
+    def targets(t):
+        if isinstance(t, (ast.Tuple, ast.List)):
+            for e in t.elts:
+                targets(e)
+        elif isinstance(t, ast.Attribute) and isinstance(t.value, ast.Name) and t.value.id == "self":
+            written.add(t.attr)
+
+    for n in ast.walk(t2):
+        if isinstance(n, ast.Assign):
+            for t in n.targets:
+                targets(t)
+        elif isinstance(n, (ast.AugAssign, ast.AnnAssign)):
+            targets(n.target)
+    return {"blob_reads": reads, "request_state": sorted(written)}
+
+
+def check_source_facts(ctx):
+    f = source_facts()
+    ctx.extra["source_facts"] = f
+    if "session_id" not in f["blob_reads"] or "H" in f["blob_reads"]:
+        ctx.broken.append({"kind": "generator", "what": "_get_session_blob does not bind transport.session_id",
+                           "detail": "reads transport.%s" % f["blob_reads"]})
+    extra = [a for a in f["request_state"] if a != "auth_username"]
+    if extra:
+        ctx.broken.append({"kind": "generator", "what": "_parse_userauth_request keeps state between requests",
+                           "detail": "assigns self.%s (only auth_username is expected: every request's verdict is a "
+                                     "function of that request)" % extra})
+    return f
